@@ -433,12 +433,17 @@ bool DependencyScan::RecomputeNodeDirty(Node* node, std::vector<Node*>* stack,
 
   bool dirty = false;
   edge->outputs_ready_ = true;
-  edge->deps_missing_ = false;
 
   const bool edge_deps_loaded = edge->deps_loaded_;
-  if (!edge->deps_loaded_) {
+  if (edge_deps_loaded) {
+    // The edge is visited again (a dyndep file was loaded during the build).
+    // Its deps are loaded only once, so what the first visit found out about
+    // them still holds: an edge whose deps are missing must be rebuilt.
+    dirty = edge->deps_missing_;
+  } else {
     // This is our first encounter with this edge.
     edge->deps_loaded_ = true;
+    edge->deps_missing_ = false;
 
     // If there is a pending dyndep file, visit it now:
     // * If the dyndep file is ready then load it now to get any
